@@ -471,6 +471,7 @@ pub fn run_check(spec: &CheckSpec, cfg: &RunCfg) -> i32 {
         let tmp_path = dir.join(format!(".tmp-{}-{}-{}.json", spec.prop, fam.name, f.i));
         // does a replay file reproduce in a FRESH process?
         let fresh = |rf: &ReplayFile| -> bool {
+            // replay() itself repeats plans that involve a real rayon pool (schedules there are not ours)
             std::fs::write(&tmp_path, serde_json::to_string(rf).unwrap()).expect("write tmp replay");
             let st = std::process::Command::new(std::env::current_exe().unwrap()).arg("replay").arg(&tmp_path).arg("--quiet").stderr(std::process::Stdio::null()).status();
             matches!(st, Ok(s) if s.code() == Some(1))
@@ -492,7 +493,16 @@ pub fn run_check(spec: &CheckSpec, cfg: &RunCfg) -> i32 {
         let mut prelude: Vec<Plan> = Vec::new();
         let alone = mk(&f.plan, &f.violation, vec![], f.levels.clone(), 0);
         let (small, v, out_trace, levels);
-        if fresh(&alone) {
+        let real_pool = f.plan.tasks.iter().flat_map(|t| t.ops.iter()).any(|o| matches!(o, Op::ParallelRayon { .. } | Op::Absorb { via: AbsorbVia::Rayon { .. } | AbsorbVia::MmapRayon, .. }));
+        if real_pool && fresh(&alone) {
+            // a violation observed on a real rayon pool: its schedule is not ours, so the plan is reported as
+            // found (no shrinking: every candidate would need many attempts); the replay repeats the run
+            println!("  violation involves a real rayon pool: reported unshrunk; the replay repeats the run until it shows");
+            small = f.plan.clone();
+            v = f.violation.clone();
+            out_trace = 0;
+            levels = f.levels.clone();
+        } else if fresh(&alone) {
             let fv = f.violation.clone();
             let mut test = |p: &Plan| -> Option<Violation> {
                 if is_memfault {
@@ -743,7 +753,23 @@ pub fn replay(path: &str, quiet: bool) -> i32 {
     for p in &rf.prelude {
         let _ = judge_plan(p, judge, &avail);
     }
-    let (out, v, _) = judge_plan(&rf.plan, judge, &avail);
+    // operations on a real rayon pool are the one place where the schedule is not the simulator's: such a
+    // replay is expected, not guaranteed, to reproduce on the first attempt, so it is repeated
+    let real_pool = rf.plan.tasks.iter().flat_map(|t| t.ops.iter()).any(|o| {
+        matches!(o, Op::ParallelRayon { .. } | Op::Absorb { via: AbsorbVia::Rayon { .. } | AbsorbVia::MmapRayon, .. })
+    });
+    let attempts = if real_pool { 600 } else { 1 };
+    let (mut out, mut v, _) = judge_plan(&rf.plan, judge, &avail);
+    let mut tries = 1;
+    while v.is_none() && out.harness_error.is_none() && tries < attempts {
+        let r = judge_plan(&rf.plan, judge, &avail);
+        out = r.0;
+        v = r.1;
+        tries += 1;
+    }
+    if real_pool && !quiet {
+        println!("note: this replay uses a real rayon pool; {} attempt(s) were made", tries);
+    }
     if let Some(h) = out.harness_error {
         eprintln!("HARNESS ERROR: {h}");
         return 2;
